@@ -368,7 +368,7 @@ META["C18"] = {
 
 META["C10"] = {
     "title": "Thread-safe variants serialise delivery and cannot deadlock",
-    "rule": "cases = (scenario family, 2-3 real OS threads each with a script of 1-4 of next / complete / error / subscribe / unsubscribe, baton schedule). Families: SubjectThreads, BehaviorSubject<_, SubjectThreads>, merge_threads, zip_threads, combine_latest_threads, with_latest_from_threads, take_until_threads, skip_until_threads, sample_threads, merge_all_threads (outer thread + hot inner threads, limit 1..k), finalize_threads, share_threads, observe_on_threads and delay_threads with 1-2 managed worker threads running the scheduled tasks, and a three-stage merge+finalize+take_until pipeline. The baton scheduler lets one managed thread run at a time; every MutArc lock acquisition (hook), every probe callback and every worker iteration is a scheduling point where a seeded uniform or PCT (d=1..3) strategy picks who continues. Two exploration modes: (i) SYSTEMATIC - for 2 (quick) / 8 (thorough) generated scenarios of every family (threads truncated to 3 operations) ALL schedules with at most 1 (quick) / 2 (thorough) preemptions are enumerated (the running thread continues unless it blocks or finishes; forced switches are free; capped at 4k / 60k schedules per scenario, caps are counted); (ii) RANDOM - seeded uniform and PCT(d=1..3) schedules of freshly generated scenarios; (iii) FREE-RUNNING - the same families on truly parallel OS threads with seeded yields/spins/micro-sleeps injected at every lock point (free_parallel_runs; distinct_free_run_event_orders counts the distinct orders of stamped events actually observed); a free-running thread that does not finish in 20 s is INCONCLUSIVE. (iv) CROSS-COUPLED pipelines (counters cross_coupled_schedules, distinct_cross_coupled_schedules; 5 variants): two thread-safe subjects a and b with a.flat_map_threads(->b) and b.flat_map_threads(->a) subscribed, thread 1 emitting into a while thread 2 emits into b; the same over two BehaviorSubjects; from_iter([a,b]).concat_all_threads() next to from_iter([b,a]).concat_all_threads() with a and b completing concurrently; from_iter([s,s]).concat_all_threads() with s completing (the hand-over subscribes s from inside s's own completion, on one thread); a.take_until_threads(b), b.take_until_threads(a) and a.merge_threads(b) together - nobody re-enters his own pipeline from a callback, it is the operators that subscribe / feed subject B from inside a delivery of subject A; oracle: logical deadlock detector, single-thread self-deadlock probe, panic, every call returned. Additional oracles: the thread-safe two-input combinators must be LINEARIZABLE (some total order of the concurrent calls consistent with their call/return stamps makes the timeline model produce the observed output); merge_all_threads: conservation, per-inner order, live inners <= limit, completion neither lost nor early. Oracles: a probe never entered on two threads at once, grammar per probe, one common order of shared items among subscribers of one subject/share, no logical deadlock (every unfinished thread blocked on a cell probed as held), no panic, every scripted call returned. Non-trivial: the schedule had at least one context switch; distinct = hash(scenario, schedule trace).",
+    "rule": "cases = (scenario family, 2-3 real OS threads each with a script of 1-4 of next / complete / error / subscribe / unsubscribe, baton schedule). Families: SubjectThreads, BehaviorSubject<_, SubjectThreads>, merge_threads, zip_threads, combine_latest_threads, with_latest_from_threads, take_until_threads, skip_until_threads, sample_threads, merge_all_threads (outer thread + hot inner threads, limit 1..k), finalize_threads, share_threads, observe_on_threads and delay_threads with 1-2 managed worker threads running the scheduled tasks, and a three-stage merge+finalize+take_until pipeline. The baton scheduler lets one managed thread run at a time; every MutArc lock acquisition (hook), every probe callback and every worker iteration is a scheduling point where a seeded uniform or PCT (d=1..3) strategy picks who continues. Two exploration modes: (i) SYSTEMATIC - for 2 (quick) / 8 (thorough) generated scenarios of every family (threads truncated to 3 operations) ALL schedules with at most 1 (quick) / 2 (thorough) preemptions are enumerated (the running thread continues unless it blocks or finishes; forced switches are free; capped at 4k / 60k schedules per scenario, caps are counted); (ii) RANDOM - seeded uniform and PCT(d=1..3) schedules of freshly generated scenarios; (iii) FREE-RUNNING - the same families on truly parallel OS threads with seeded yields/spins/micro-sleeps injected at every lock point (free_parallel_runs; distinct_free_run_event_orders counts the distinct orders of stamped events actually observed); a free-running thread that does not finish in 20 s is INCONCLUSIVE. (iv) CROSS-COUPLED pipelines (counters cross_coupled_schedules, distinct_cross_coupled_schedules; 6 variants): two thread-safe subjects a and b with a.flat_map_threads(->b) and b.flat_map_threads(->a) subscribed, thread 1 emitting into a while thread 2 emits into b; the same over two BehaviorSubjects; from_iter([a,b]).concat_all_threads() next to from_iter([b,a]).concat_all_threads() with a and b completing concurrently; from_iter([s,s]).concat_all_threads() with s completing (the hand-over subscribes s from inside s's own completion, on one thread); a.take_until_threads(b), b.take_until_threads(a) and a.merge_threads(b) together; a.observe_on_threads(pool) and b.observe_on_threads(pool) whose consumer stages (running inside the pool tasks, two managed worker threads) pass a few items on into the other subject - nobody re-enters his own pipeline from a callback, it is the operators that subscribe / feed subject B from inside a delivery of subject A; oracle: logical deadlock detector, single-thread self-deadlock probe, panic, every call returned. Additional oracles: the thread-safe two-input combinators must be LINEARIZABLE (some total order of the concurrent calls consistent with their call/return stamps makes the timeline model produce the observed output); merge_all_threads: conservation, per-inner order, live inners <= limit, completion neither lost nor early. Oracles: a probe never entered on two threads at once, grammar per probe, one common order of shared items among subscribers of one subject/share, no logical deadlock (every unfinished thread blocked on a cell probed as held), no panic, every scripted call returned. Non-trivial: the schedule had at least one context switch; distinct = hash(scenario, schedule trace).",
     "assumptions": COMMON_ASSUME + [
         "interleavings are sampled at lock-acquisition granularity (plus the explicit points); lock releases and code between two acquisitions are not separate scheduling points",
         "callers do not re-enter the same pipeline from inside a callback (excluded by the statement)",
@@ -379,7 +379,7 @@ META["C10"] = {
     "level_text": "Exploration: preemption-bounded systematic enumeration (bound 1 quick, 2 thorough) on small scenarios of all 20 families plus sampled lock-level interleavings (uniform + PCT); logical deadlock detection is exact on every schedule run.",
     "level_note": "Trusted: baton scheduler (harness/src/conc.rs), the lock hook placement before MutArc::lock, probes.",
     "design_ref": "DESIGN.md §5 C10",
-    "require": {"quick": {"thread_scenarios_covered": 25, "distinct_thread_schedules": 8000, "systematic_scenarios": 40, "cross_coupled_schedules": 5000, "cross_coupled_variants": 5}, "thorough": {"thread_scenarios_covered": 25, "systematic_scenarios": 160, "cross_coupled_schedules": 300000, "cross_coupled_variants": 5}},
+    "require": {"quick": {"thread_scenarios_covered": 25, "distinct_thread_schedules": 8000, "systematic_scenarios": 40, "cross_coupled_schedules": 5000, "cross_coupled_variants": 6}, "thorough": {"thread_scenarios_covered": 25, "systematic_scenarios": 160, "cross_coupled_schedules": 300000, "cross_coupled_variants": 6}},
     "watchdog_s": {"quick": 600, "thorough": 7200},
 }
 
